@@ -2,7 +2,6 @@ package main
 
 import (
 	"fmt"
-	"go/token"
 	"go/types"
 	"sort"
 	"strings"
@@ -12,13 +11,15 @@ import (
 
 func init() {
 	register("C13", "Decides structural necessary conditions of 'submission retries follow the server's pacing and stop when they should': "+
-		"(R1) every iteration of the retry loop makes exactly one HTTP POST attempt — a call of PostAndParse, or the request itself when the transport is written out in the loop (then the clauses of R5 are decided on the loop and an unparsable 200 body must take the back-off-and-retry path there) —; the status decision table of the retry loop: 200 ⇒ the loop returns the response and body of that attempt with a nil error; 408 ⇒ another attempt without touching the back-off; 429 and 503 ⇒ back-off then another attempt; every other status (each constant the code compares with, and the default) ⇒ immediate RspError{StatusCode, Body, Err}; "+
-		"(R2) the error edge: context.Canceled / DeadlineExceeded ⇒ immediate return of that error, any other error ⇒ backoff.set(nil) and another attempt; on 429/503 the override handed to backoff.set is nil without Retry-After, seconds×time.Second for an integer, time.Until(date) for an RFC 1123 date, nil when neither parses; every way round the loop passes waitForBackoff(ctx) and its error ends the loop and is returned; "+
-		"(R3) backoff.set, decided on the state it leaves at every return in each case (comparisons read as signs of linear forms over the clock, the stored instant, the override and the multiplier, however they are spelled — After/Before/Compare/Sub/Until/Since, either operand order): with an override the not-before instant becomes now+override unless the existing one is already later (never shortened, never less than Retry-After), without one it becomes now + 1s·2^(multiplier−1) of the multiplier after its step, the multiplier stepped by one only below 8 (at 8: now + 128 s, the cap), and an instant still in the future is left alone; only set/decreaseMultiplier write the shared state and every client gets a fresh zero backoff; "+
-		"(R4) waitForBackoff sleeps time.Until(until() + jitter) with jitter = rand.Intn(maxJitter in ms) milliseconds ≥ 0 (negative ⇒ 0) in a blocking select that also listens on ctx.Done() and returns ctx.Err() from it; maxJitter = 250 ms; "+
-		"(R5) PostAndParse: no nil-error return after any failing step nor when the final request method is not POST; an unparsable 200 body gives RspError with status and body (so the loop's error edge retries it); the nil-error return hands back the response and the body read from it; "+
+		"(R1) every iteration of the retry loop makes exactly one HTTP POST attempt — a call of PostAndParse, or the request itself when the transport is written out in the loop (then the clauses of R5 are decided on the loop and an unparsable 200 body must take the back-off-and-retry path there) —; the status decision table of the retry loop: 200 ⇒ the loop returns the response and body of that attempt with a nil error; 408 ⇒ another attempt without added delay: the back-off is not touched, or only by backoff.set(&d) with a constant d ≤ 0 (which R3 decides never moves not-before past max(not-before, now)); 429 and 503 ⇒ back-off then another attempt; every other status (each constant the code compares with, and the default) ⇒ immediate RspError{StatusCode, Body, Err}; "+
+		"(R2) the error edge: an error that IS context.Canceled / DeadlineExceeded (identity) ⇒ immediate return of that error; once ctx.Err() ≠ nil the loop may return ctx.Err() at once instead of retrying; any other error while ctx.Err() = nil — whatever errors.Is or a type test says about it (the per-attempt http.Client.Timeout wraps DeadlineExceeded too) — ⇒ backoff.set(nil) and another attempt; on 429/503 the override handed to backoff.set is nil without Retry-After, seconds×time.Second for an integer (also for one beyond int where the code tells ErrRange apart), time.Until(date) when one of the date parsers found accepts the value while the others fail (each parser in turn; a parser tried in a loop over a constant table of layouts counts once per table), nil when nothing parses; the date parsers are handed the header value and accept the IMF-fixdate form; every way round the loop passes waitForBackoff(ctx) and its error ends the loop and is returned; "+
+		"(R3) backoff.set, decided on the state it leaves at every return in each case (comparisons read as signs of linear forms over the clock, the stored instant, the override and the multiplier, however they are spelled — After/Before/Compare/Sub/Until/Since, either operand order): with an override the not-before instant becomes now+override unless the existing one is already later (never shortened, never less than Retry-After), without one it becomes now + 1s·2^(multiplier−1) of the multiplier after its step, the multiplier stepped by one only below 8 (at 8: now + 128 s, the cap), and an instant still in the future is left alone; where that reading cannot speak (the override is adjusted before it is applied, e.g. floored at the current exponential step; one condition stands for different comparisons on different paths) set is executed symbolically path by path and the clauses themselves are decided for every multiplier 0…8 as implications between linear inequalities: no override ⇒ exactly the states above; with an override not-before' ≥ now+override and ≥ a pending not-before, an override ≤ 0 (the 408 path, Retry-After: 0, a past date) leaves not-before' ≤ max(not-before, now), a positive one not-before' ≤ max(not-before, now+override, now+128 s); only set/decreaseMultiplier write the shared state and every client gets a fresh zero backoff; "+
+		"(R4) waitForBackoff sleeps time.Until(until() + jitter) with jitter = rand.Intn(maxJitter in ms) milliseconds (a negative remaining time ⇒ 0, or the remaining time itself where no branch tests its sign: such a timer fires at once) in a blocking select that also listens on ctx.Done() and returns ctx.Err() from it; a return that ends the wait before the select executes only while the not-before instant is not after the clock, and returns ctx.Err() or nil; maxJitter = 250 ms; "+
+		"(R5) PostAndParse: no nil-error return after any failing step nor when the final request method is not POST; an unparsable 200 body gives RspError with status and body (so the loop's error edge retries it) — for every step that decodes the body, json.Unmarshal itself or a module helper built on it —; the body is decoded for status 200 only and what is decoded ends in the caller's rsp; the nil-error return hands back the response and the body read from it; "+
+		"(R8) every form of Retry-After: the override of the seconds form, evaluated as a piecewise affine function of the integer the parser returned (φ-nodes and reaching stores split by the comparisons that guard them, min/max, + − × << with constants, conversions), never wraps round and is a constant only where x seconds cannot be represented, and then the largest value that can (seconds-fit-duration: time.Duration(seconds)*time.Second fails for Retry-After: 9223372037); a number of seconds beyond the integer type (strconv: ErrRange) is not taken for an unparsable value (seconds-beyond-int); each of the three HTTP-date forms — IMF-fixdate, RFC 850, asctime (RFC 7231 7.1.1.1) — is accepted by one of the parsers whose result becomes time.Until(date): layouts (constants, or every element of a constant table that a loop walks from 0 to len−1 and leaves early only on success) are judged by what time.Parse does with sample dates of each form, net/http.ParseTime accepts all three, time.ParseInLocation only with time.UTC (date-form[imf-fixdate|rfc850|asctime]); "+
+		"(R9) what is returned was decoded from the accepted body only: no JSON decoder — which may fail after it has filled part of its target — writes into memory reached from the caller's rsp (followed through interface boxing, &rsp, reflect.ValueOf/Elem/Indirect and module helpers) unless every failure assigns the target anew before returning; a scratch value is assigned to rsp ((reflect.Value).Set) only after every decode into it succeeded, and is not older than the attempt (decoded-from-accepted-body-only: json.Unmarshal(body, &rsp) on every attempt fails — {\"data\":\"stale\",\"tree_size\":\"oops\"} then {\"tree_size\":11} returns Data:stale); "+
 		"(R7) LogClient.AddChain/AddPreChain submit through PostAndParseWithRetry with the caller's context and surface its error. "+
-		"NOT covered: elapsed wall-clock time, arithmetic overflow of absurd Retry-After values, fairness and data-race freedom among concurrent callers (the lock discipline of backoff is the central LOCK rule C13.R6), infinite response sequences (liveness), the behaviour of ctxhttp/net/http and of context implementations, which local (non-transport) errors of PostAndParse are retried.",
+		"NOT covered: elapsed wall-clock time, whether an override also steps the multiplier (in the path form only its effect on not-before is decided), an early end of the wait guarded by anything but a comparison of the not-before instant with the clock (undecided), overflow of time.Now().Add(override) inside package time, Retry-After values that are neither delay-seconds nor one of the three HTTP-date forms (e.g. a date with a zone other than GMT is accepted or not as time.Parse decides), clamps or overflow checks written other than by comparisons with constants / min / max (a check by division is 'undecided'), nested values of a pre-filled rsp that a scratch copy shares with it (the copy is shallow), fairness and data-race freedom among concurrent callers (the lock discipline of backoff is the central LOCK rule C13.R6), infinite response sequences (liveness), the behaviour of ctxhttp/net/http and of context implementations, which local (non-transport) errors of PostAndParse are retried.",
 		runC13)
 }
 
@@ -32,12 +33,14 @@ const (
 
 func runC13(r *Run) {
 	r.Assume("ctxhttp.Do returns ctx.Err() itself once the context has ended; ctx.Err() is non-nil after ctx.Done() is closed (context contract)")
-	r.Assume("time.Now/Until/Add, rand.Intn, strconv.Atoi and time.Parse behave per their documentation; Duration arithmetic does not overflow for sane Retry-After values")
+	r.Assume("time.Now/Until/Add, rand.Intn, strconv.Atoi and time.Parse behave per their documentation (that the seconds of a Retry-After never wrap is C13.R8)")
 	r.Assume("the only implementation of jsonclient.backoffer outside tests is *jsonclient.backoff (checked: every store to JSONClient.backoff is a fresh *backoff)")
 
 	loop := r.Fn(c13Loop0)
 	if loop != nil {
 		c13Loop(r, loop)
+		c13RetryAfterForms(r, loop)
+		c13AcceptedBodyOnly(r, loop)
 	}
 	if fn := r.Fn("(*jsonclient.backoff).set"); fn != nil {
 		c13Set3(r, fn)
@@ -207,6 +210,8 @@ func c13RetKinds(r *Run, w *c13WaitSite, ret *ssa.Return, reach *Reach) []c13Kin
 			k = "other(" + d0 + ", " + d1 + ", " + de + ")"
 		case w.isWaitErr(r, e):
 			k = "wait-error"
+		case de == c13CtxErr:
+			k = "ctx-error" // the caller's context's own error, read in the loop
 		case att.err != "" && glob(att.err, de):
 			k = "attempt-error"
 		case errKind(e) == "non":
@@ -356,8 +361,11 @@ func c13Loop(r *Run, fn *ssa.Function) {
 			return len(o.kinds) == 1 && o.kinds[0] == "success" && len(o.sets) == 0 && len(o.waits) == 0 && !o.loops,
 				"200 ⇒ return (response, body, nil) at once"
 		case "408":
-			return c13OnlyKinds(o, "wait-error") && len(o.sets) == 0 && len(o.waits) > 0 && o.loops,
-				"408 ⇒ next attempt, back-off state untouched (no set call), only exit is the wait's error"
+			// without added delay: the back-off state is not touched, or only by set(&d) with a constant
+			// d ≤ 0 — which C13.R3 decides never moves not-before past max(not-before, now)
+			noDelay, how := c13NoWaitSets(r, o.sets)
+			return c13OnlyKinds(o, "wait-error") && noDelay && len(o.waits) > 0 && o.loops,
+				"408 ⇒ next attempt without added delay (no set call, or only backoff.set(&d) with a constant d ≤ 0, which never adds delay: set[…override…] / set:no-wait-override-adds-no-delay), only exit is the wait's error" + how
 		case "429", "503":
 			return c13OnlyKinds(o, "wait-error") && len(o.sets) > 0 && len(o.waits) > 0 && o.loops,
 				code + " ⇒ backoff.set, wait, next attempt; only exit is the wait's error"
@@ -401,38 +409,7 @@ func c13Loop(r *Run, fn *ssa.Function) {
 
 	// R2a: the error edge
 	r.Rule("C13.R2")
-	r.ClassTable(fn, "retry:error-edge", header,
-		[]RuleAtom{{Name: "err", Pat: errAtom.Pat, Dom: []string{"non"}},
-			// identity comparison with the context sentinels: errors.Is would also match
-			// per-attempt transport timeouts (http.Client.Timeout wraps DeadlineExceeded)
-			// while the caller's context is alive, and end the retries early
-			{Name: "canceled", Pat: "(*PostAndParse(*)#2 == *g:context.Canceled)"},
-			{Name: "deadline", Pat: "(*PostAndParse(*)#2 == *g:context.DeadlineExceeded)"}},
-		[]string{"context-ended", "other-error"},
-		func(val map[string]string) string {
-			if val["canceled"] == "T" || val["deadline"] == "T" {
-				return "context-ended"
-			}
-			return "other-error"
-		},
-		func(class string, val map[string]string, reach *Reach) string {
-			o := c13Observe(r, w, fn, header, reach, sets, waits)
-			if class == "context-ended" {
-				if len(o.kinds) == 1 && o.kinds[0] == "attempt-error" && len(o.sets) == 0 && len(o.waits) == 0 && !o.loops {
-					return ""
-				}
-				return "a context error must be returned at once; found " + o.String()
-			}
-			if !(c13OnlyKinds(o, "wait-error") && len(o.sets) > 0 && len(o.waits) > 0 && o.loops) {
-				return "another error ⇒ backoff.set(nil), wait, next attempt; found " + o.String()
-			}
-			for _, s := range o.sets {
-				if a := r.D.D(CallArgs(s.(ssa.CallInstruction))[1]); a != "nil" {
-					return "the error edge must call backoff.set(nil), found set(" + a + ")"
-				}
-			}
-			return ""
-		})
+	c13ErrorEdge(r, w, fn, header, errAtom, sets, waits)
 
 	// R2b: the override on 429 / 503
 	c13Overrides(r, fn, header, byCode, errNil, sets, c13Post+"(*)#0", nil)
@@ -467,27 +444,103 @@ func c13Loop(r *Run, fn *ssa.Function) {
 }
 
 // c13Overrides (R2b): on 429 / 503 the override handed to backoff.set is nil without a Retry-After
-// header, seconds×time.Second for an integer, time.Until(date) for an RFC 1123 date, nil when
-// neither parses.  The header is examined either in the loop itself or by a helper that is a pure
-// function of the response and whose result is what the loop hands to backoff.set; in the second
-// form the table is decided inside the helper and its terms are carried to the call site.
+// header, seconds×time.Second for an integer, time.Until(date) when a date parser accepts the value
+// (each of the parsers whose result can become the override, while the others fail), nil when nothing
+// parses.  The header is examined either in the loop itself or by a helper that is a pure function of
+// the response and whose result is what the loop hands to backoff.set; in the second form the table is
+// decided inside the helper and its terms are carried to the call site.  Which forms of a date the
+// parsers accept, and that the seconds never wrap, is C13.R8 (rules_t7c13retry.go).
 //
 // rsp is the glob of the response of the attempt; stop (written-out transport) keeps the walks,
 // which then start at the status dispatch, inside one iteration.
 func c13Overrides(r *Run, fn *ssa.Function, header *ssa.BasicBlock, byCode map[int64]*ConstCase, errNil Sigma, sets []ssa.Instruction, rsp string, stop map[*ssa.BasicBlock]bool) {
 	ra := ordAtomR(`(http.Header).Get(*"Retry-After")`, `""`)
 	atoi := nilAtom("strconv.Atoi(*)#1")
-	parse := nilAtom("time.Parse(*)#1")
 	type ovCase struct {
 		name string
 		avs  []AtomVal
 		want string // "nil", "seconds", "date"
 	}
-	ovs := []ovCase{
-		{"no-header", []AtomVal{{ra, "="}}, "nil"},
-		{"seconds", []AtomVal{{ra, ">"}, {atoi, "nil"}}, "seconds"},
-		{"http-date", []AtomVal{{ra, ">"}, {atoi, "non"}, {parse, "nil"}}, "date"},
-		{"unparsable", []AtomVal{{ra, ">"}, {atoi, "non"}, {parse, "non"}}, "nil"},
+	// the date parsers of a frame: the calls whose first result can become time.Until(date) in an
+	// override local of that frame
+	locals, _ := c13OvLocals(r, fn)
+	dateCalls := func(frame *ssa.Function) []ssa.CallInstruction {
+		var out []ssa.CallInstruction
+		seen := map[ssa.CallInstruction]bool{}
+		for _, l := range locals {
+			if l.a.Parent() != frame {
+				continue
+			}
+			ds, _, _ := c13DateSources(r, l.a)
+			for _, d := range ds {
+				if !seen[d.call] && d.call.Parent() == frame {
+					seen[d.call] = true
+					out = append(out, d.call)
+				}
+			}
+		}
+		return out
+	}
+	// rows of the table for a frame (the loop, or the helper that computes the override)
+	rowsFor := func(frame *ssa.Function) []ovCase {
+		rows := []ovCase{
+			{"no-header", []AtomVal{{ra, "="}}, "nil"},
+			{"seconds", []AtomVal{{ra, ">"}, {atoi, "nil"}}, "seconds"},
+		}
+		// "the integer parse failed" is the case "… and not because the number is too large" where the
+		// code tells the two apart (strconv reports ErrRange and returns the nearest integer): a number
+		// of seconds beyond int is still the seconds form
+		failed := []AtomVal{{ra, ">"}, {atoi, "non"}}
+		if _, e := r.BindSigma(frame, AtomVal{c13RangeAtom, "T"}); e == nil {
+			rows = append(rows, ovCase{"seconds-beyond-int", []AtomVal{{ra, ">"}, {atoi, "non"}, {c13RangeAtom, "T"}}, "seconds"})
+			failed = append(failed, AtomVal{c13RangeAtom, "F"})
+		}
+		dcs := dateCalls(frame)
+		if len(dcs) == 0 {
+			parse := nilAtom("time.Parse(*)#1")
+			return append(rows,
+				ovCase{"http-date", append(append([]AtomVal{}, failed...), AtomVal{parse, "nil"}), "date"},
+				ovCase{"unparsable", append(append([]AtomVal{}, failed...), AtomVal{parse, "non"}), "nil"})
+		}
+		errAtom := func(c ssa.CallInstruction) RuleAtom {
+			if ev := CallResult(c, 1); ev != nil {
+				return RuleAtom{Pat: "nil?" + r.D.D(ev)}
+			}
+			return RuleAtom{Pat: "nil?" + CalleeOf(c) + "(*)#1"} // binds nothing when the error is dropped: undecided
+		}
+		none := append([]AtomVal{}, failed...)
+		names := map[string]int{}
+		for _, c := range dcs {
+			names[CalleeOf(c)]++
+		}
+		for i, c := range dcs {
+			avs := append([]AtomVal{}, failed...)
+			for j, o := range dcs {
+				if i == j {
+					avs = append(avs, AtomVal{errAtom(o), "nil"})
+				} else {
+					avs = append(avs, AtomVal{errAtom(o), "non"})
+				}
+			}
+			// a parser tried in a loop over a non-empty constant table of layouts runs at least once
+			if CalleeOf(c) == "time.Parse" || CalleeOf(c) == "time.ParseInLocation" {
+				if av, ok := c13TableLoopEntered(r, c); ok {
+					avs = append(avs, av)
+				}
+			}
+			name := "http-date"
+			if len(dcs) > 1 {
+				name += ":" + CalleeOf(c)
+				if names[CalleeOf(c)] > 1 {
+					if ls, _ := c13Layouts(r, CallArgs(c)[0], nil); len(ls) > 0 {
+						name += fmt.Sprintf("(%q)", strings.Join(ls, "|"))
+					}
+				}
+			}
+			rows = append(rows, ovCase{name, avs, "date"})
+			none = append(none, AtomVal{errAtom(c), "non"})
+		}
+		return append(rows, ovCase{"unparsable", none, "nil"})
 	}
 	merge := func(a, b Sigma) Sigma {
 		s := Sigma{}
@@ -525,7 +578,7 @@ func c13Overrides(r *Run, fn *ssa.Function, header *ssa.BasicBlock, byCode map[i
 		}
 		base := merge(c.Sigma, errNil)
 		if direct {
-			for _, ov := range ovs {
+			for _, ov := range rowsFor(fn) {
 				key := fmt.Sprintf("retry:override[%d,%s]", code, ov.name)
 				s2, err := r.BindSigma(fn, ov.avs...)
 				if err != nil {
@@ -541,7 +594,7 @@ func c13Overrides(r *Run, fn *ssa.Function, header *ssa.BasicBlock, byCode map[i
 					continue
 				}
 				for _, sc := range rs {
-					ok, got := c13Override(r, CallArgs(sc.(ssa.CallInstruction))[1], reach, ov.want)
+					ok, got := c13Override(r, CallArgs(sc.(ssa.CallInstruction))[1], sc, reach, ov.want)
 					r.Check(key, ok, r.Where(sc), fmt.Sprintf("override handed to backoff.set: %s (property: %s)", got, ov.want))
 				}
 			}
@@ -551,7 +604,7 @@ func c13Overrides(r *Run, fn *ssa.Function, header *ssa.BasicBlock, byCode map[i
 		r.Valuations++
 		rs := reachableIns(sets, reach)
 		failAll := func(where, why string) {
-			for _, ov := range ovs {
+			for _, ov := range rowsFor(fn) {
 				r.Fail(fmt.Sprintf("retry:override[%d,%s]", code, ov.name), where, why)
 			}
 		}
@@ -592,7 +645,8 @@ func c13Overrides(r *Run, fn *ssa.Function, header *ssa.BasicBlock, byCode map[i
 				// reject it, so "no header" is the case "neither form parses"
 				r.Assume(`strconv.Atoi("") and time.Parse(layout, "") return errors`)
 			}
-			for _, ov := range ovs {
+			rows := rowsFor(g)
+			for _, ov := range rows {
 				key := fmt.Sprintf("retry:override[%d,%s]", code, ov.name)
 				var avs []AtomVal
 				for _, av := range ov.avs {
@@ -604,7 +658,12 @@ func c13Overrides(r *Run, fn *ssa.Function, header *ssa.BasicBlock, byCode map[i
 					}
 				}
 				if !hasRA && ov.name == "no-header" {
-					avs = []AtomVal{{atoi, "non"}, {parse, "non"}}
+					avs = nil
+					for _, av := range rows[len(rows)-1].avs { // the row "unparsable"
+						if av.Atom.OrdA != ra.OrdA {
+							avs = append(avs, av)
+						}
+					}
 				}
 				s2, err := r.BindSigma(g, avs...)
 				if err != nil {
@@ -619,7 +678,7 @@ func c13Overrides(r *Run, fn *ssa.Function, header *ssa.BasicBlock, byCode map[i
 					continue
 				}
 				for _, ret := range rets {
-					ok, got := c13Override(r, RetVals(ret)[idx], greach, ov.want)
+					ok, got := c13Override(r, RetVals(ret)[idx], ret, greach, ov.want)
 					if len(touched) > 0 {
 						ok, got = false, got+" | "+strings.Join(touched, " | ")
 					}
@@ -636,10 +695,30 @@ func c13Overrides(r *Run, fn *ssa.Function, header *ssa.BasicBlock, byCode map[i
 		if c := r.OneCall(st.fn, "retry:Atoi", "strconv.Atoi"); c != nil {
 			c13ExpectArgVia(r, c, "retry:Atoi.input", 0, header, st.via)
 		}
-		if c := r.OneCall(st.fn, "retry:time.Parse", "time.Parse"); c != nil {
-			r.ExpectArg(c, "retry:time.Parse.layout", 0, `"Mon, 02 Jan 2006 15:04:05 MST" || "Mon, 02 Jan 2006 15:04:05 GMT"`)
-			c13ExpectArgVia(r, c, "retry:time.Parse.input", 1, header, st.via)
+		// the date parsers: each is handed the header value, and the form servers actually send
+		// (IMF-fixdate) is accepted by one of them
+		dcs := dateCalls(st.fn)
+		if !r.Check("retry:time.Parse", len(dcs) >= 1, r.FnPos(st.fn), fmt.Sprintf("%d date parsers in %s whose result becomes time.Until(date) in the override", len(dcs), FuncName(st.fn))) {
+			continue
 		}
+		imf, tried := false, []string{}
+		for _, c := range dcs {
+			ds := c13DateSourceOf(r, c, 0)
+			imf = imf || ds.forms[0]
+			tried = append(tried, fmt.Sprintf("%s%q", CalleeOf(c), ds.layouts))
+			if ds.why != "" {
+				r.Fail("retry:time.Parse.layout", r.Where(c), "undecided: "+ds.why)
+			}
+			if ds.input == nil {
+				continue
+			}
+			for i, a := range CallArgs(c) {
+				if a == ds.input {
+					c13ExpectArgVia(r, c, "retry:time.Parse.input", i, header, st.via)
+				}
+			}
+		}
+		r.Check("retry:time.Parse.layout", imf, r.Where(dcs[0]), fmt.Sprintf("a date in the IMF-fixdate form (RFC 1123, what servers send) is accepted by the date parsers %v", tried))
 	}
 }
 
@@ -702,8 +781,9 @@ func c13StoredThrough(r *Run, v ssa.Value, reach *Reach) []string {
 	return got
 }
 
-// c13Override classifies the override pointer handed to backoff.set under a walk.
-func c13Override(r *Run, v ssa.Value, reach *Reach, want string) (bool, string) {
+// c13Override classifies the override pointer handed to backoff.set (or returned by the helper that
+// computes it) at instruction at, under a walk.
+func c13Override(r *Run, v ssa.Value, at ssa.Instruction, reach *Reach, want string) (bool, string) {
 	leaves := PhiLeaves(v, reach)
 	if len(leaves) == 0 {
 		return false, "no value"
@@ -735,17 +815,33 @@ func c13Override(r *Run, v ssa.Value, reach *Reach, want string) (bool, string) 
 			got = append(got, "&(unset)")
 			ok = false
 		}
-		for _, st := range sts {
-			d := r.D.D(st.Val)
-			got = append(got, "&("+d+")")
-			switch want {
-			case "seconds":
-				ok = ok && glob("(1000000000 * strconv.Atoi(*)#0)", d)
-			case "date":
-				ok = ok && anyGlob("time.Until(time.Parse(*)#0) || time.Until(http.ParseTime(*)#0)", d)
-			default:
+		switch want {
+		case "seconds":
+			// what the local holds when it is handed over, as a function of the parsed integer x: x seconds
+			root, n := c13SecondsRoot(a)
+			if root == nil || n != 1 {
+				for _, st := range sts {
+					got = append(got, "&("+r.D.D(st.Val)+")")
+				}
 				ok = false
+				break
 			}
+			e := c13NewAltEval(r, root)
+			e.reach = reach
+			okS, detail := c13SecondsExact(e.load(a, at.Block(), instrIndexOf(at), c13RootRange(root), 0), false)
+			got = append(got, "&("+detail+")")
+			ok = ok && okS
+		case "date":
+			for _, st := range sts {
+				got = append(got, "&("+r.D.D(st.Val)+")")
+				okD, _ := c13DateShaped(r, st.Val)
+				ok = ok && okD
+			}
+		default:
+			for _, st := range sts {
+				got = append(got, "&("+r.D.D(st.Val)+")")
+			}
+			ok = false
 		}
 	}
 	return ok, strings.Join(got, " | ")
@@ -757,7 +853,22 @@ func c13Set3(r *Run, fn *ssa.Function) {
 	r.Rule("C13.R3")
 	// decided on what set leaves behind in each case of the property (rules_t6c13.go): the comparisons
 	// are signs of linear forms over now / not-before / override / multiplier, however they are spelled
+	// … and, where that reading cannot speak (one condition text standing for different comparisons on
+	// different paths, an override adjusted before it is applied), on the clauses themselves, path by
+	// path (rules_t8c13.go)
+	mark := len(r.Obls)
 	c13SetFacts(r, fn)
+	failed := false
+	for _, o := range r.Obls[mark:] {
+		failed = failed || !o.OK
+	}
+	if failed {
+		for _, o := range r.Obls[mark:] {
+			delete(r.seen, o.Key)
+		}
+		r.Obls = r.Obls[:mark]
+		c13SetPaths(r, fn)
+	}
 	if c := r.P.LookupConst("jsonclient.maxMultiplier"); c != nil {
 		r.Check("const:maxMultiplier", c.Val().ExactString() == "8", r.P.Pos(c.Pos()), "maxMultiplier = "+c.Val().ExactString()+" (2^(8−1) s = 128 s cap)")
 	}
@@ -836,14 +947,20 @@ func c13WaitRule(r *Run, w *c13WaitSite) {
 		return
 	}
 	until := untils[0]
-	neg, err := r.BindSigma(fn, AtomVal{ordAtomR("time.Until(*)", "0"), "<"})
+	// the sign test of the remaining time the timer is armed with (not of another time.Until)
+	remaining := r.D.D(until.Value())
+	neg, err := r.BindSigma(fn, AtomVal{ordAtomR(remaining, "0"), "<"})
 	if err != nil {
-		r.Fail("wait:clamp", r.FnPos(fn), "undecided: "+err.Error())
+		// no branch looks at the sign of the remaining time: the timer is then armed with the remaining
+		// time itself on every path, and a timer armed with d ≤ 0 fires at once
+		r.Assume("time.NewTimer(d) / time.After(d) with d ≤ 0 fire at once (package time)")
+		got := r.ArgUnder(fn, timer, 0, Sigma{})
+		r.Check("wait:clamp", glob("time.Until(*)", got), r.Where(timer), "no branch tests the sign of the remaining time: the timer is armed with the remaining time itself on every path (a negative one fires at once): timer("+got+")")
 	} else {
 		got := r.ArgUnder(fn, timer, 0, neg)
 		r.Check("wait:clamp", got == "0", r.Where(timer), "remaining time < 0 ⇒ timer("+got+")")
 		for _, v := range []string{"=", ">"} {
-			s, _ := r.BindSigma(fn, AtomVal{ordAtomR("time.Until(*)", "0"), v})
+			s, _ := r.BindSigma(fn, AtomVal{ordAtomR(remaining, "0"), v})
 			got := r.ArgUnder(fn, timer, 0, s)
 			r.Check("wait:duration["+v+"0]", glob("time.Until(*)", got), r.Where(timer), "remaining time "+v+" 0 ⇒ timer("+got+")")
 		}
@@ -857,6 +974,10 @@ func c13WaitRule(r *Run, w *c13WaitSite) {
 		if glob("(1000000 * rand.Intn(*))", r.D.D(CallArgs(add)[1])) {
 			nb = callOfValue(CallArgs(add)[0])
 		}
+	}
+	nbTerm := ""
+	if nb != nil {
+		nbTerm = r.D.D(nb.Value())
 	}
 	r.Check("wait:deadline", nb != nil, r.Where(until), "arg 0 of time.Until = "+deadline+" (expected (time.Time).Add(<not-before instant read from the back-off state>, (1000000 * rand.Intn(*))))")
 	if nb != nil {
@@ -943,6 +1064,7 @@ func c13WaitRule(r *Run, w *c13WaitSite) {
 		r.Fail("wait:select", r.FnPos(fn), fmt.Sprintf("undecided: %d select statements in %s", nsel, FuncName(fn)))
 		return
 	}
+	c13WaitEarlyReturns(r, w, sel, nbTerm)
 	r.Check("wait:select.blocking", sel.Blocking, r.Where(sel), "the select blocks (no default case)")
 	doneIdx, timerIdx := -1, -1
 	for i, st := range sel.States {
@@ -1038,33 +1160,43 @@ func c13PostRule(r *Run, fn *ssa.Function) {
 		r.Check("post:success.response", glob("ctxhttp.Do(p1, p0.httpClient, *)#0", r.D.D(v[0])), r.Where(ret), "returns the response of this request: "+r.D.D(v[0]))
 		r.Check("post:success.body", anyGlob("io.ReadAll(ctxhttp.Do(*)#0.Body)#0 || phi(io.ReadAll(ctxhttp.Do(*)#0.Body)#0|nil)", r.D.D(v[1])), r.Where(ret), "returns the body read from it: "+r.D.D(v[1]))
 	}
-	// unparsable 200 ⇒ RspError{StatusCode, Body, Err}
-	r.FailEdge(fn, "post", EdgeSpec{Name: "unparsable-200", Atom: nilAtom("json.Unmarshal(*)"), Bad: "non",
-		Want: func(r *Run, ret *ssa.Return) (bool, string) {
-			v := RetVals(ret)
-			a := baseAlloc(v[2])
-			if a == nil || !glob("new:jsonclient.RspError#*", r.D.allocName(a)) {
-				return false, "error " + r.D.D(v[2]) + " is not an RspError"
-			}
-			want := map[string]string{"StatusCode": "ctxhttp.Do(*)#0.StatusCode", "Body": "*io.ReadAll(*)#0*", "Err": "json.Unmarshal(*)"}
-			for f, pat := range want {
-				sts := r.StoresTo(ret.Parent(), "&("+r.D.allocName(a)+"."+f+")")
-				if len(sts) == 0 {
-					return false, "RspError." + f + " not set"
+	// unparsable 200 ⇒ RspError{StatusCode, Body, Err}: for every step that decodes the body (the JSON
+	// decoder itself, or a module helper built on it)
+	steps := c13DecodeSteps(fn)
+	if !r.Check("post:unmarshal", len(steps) >= 1, r.FnPos(fn), fmt.Sprintf("%d calls in %s decode the body (json.Unmarshal or a helper built on it)", len(steps), FuncName(fn))) {
+		return
+	}
+	for _, st := range steps {
+		ev, errGlob := c13StepErr(r, st)
+		if ev == nil {
+			r.Fail("post:unparsable-200", r.Where(st), "the error of "+CalleeOf(st)+" is discarded")
+			continue
+		}
+		r.FailEdge(fn, "post", EdgeSpec{Name: "unparsable-200", Atom: RuleAtom{Pat: "nil?" + r.D.D(ev)}, Bad: "non",
+			Want: func(r *Run, ret *ssa.Return) (bool, string) {
+				v := RetVals(ret)
+				a := baseAlloc(v[2])
+				if a == nil || !glob("new:jsonclient.RspError#*", r.D.allocName(a)) {
+					return false, "error " + r.D.D(v[2]) + " is not an RspError"
 				}
-				for _, st := range sts {
-					if !glob(pat, r.D.D(st.Val)) {
-						return false, "RspError." + f + " ← " + r.D.D(st.Val)
+				want := map[string]string{"StatusCode": "ctxhttp.Do(*)#0.StatusCode", "Body": "*io.ReadAll(*)#0*", "Err": errGlob}
+				for f, pat := range want {
+					sts := r.StoresTo(ret.Parent(), "&("+r.D.allocName(a)+"."+f+")")
+					if len(sts) == 0 {
+						return false, "RspError." + f + " not set"
+					}
+					for _, st := range sts {
+						if !glob(pat, r.D.D(st.Val)) {
+							return false, "RspError." + f + " ← " + r.D.D(st.Val)
+						}
 					}
 				}
-			}
-			return true, ""
-		}})
-	// the body is parsed exactly when the status is 200
-	if um := r.OneCall(fn, "post:unmarshal", "json.Unmarshal"); um != nil {
-		r.MustGuard(fn, "post:parse-only-200", "ord(200, ctxhttp.Do(*)#0.StatusCode)", "<,>", []ssa.Instruction{um}, "json.Unmarshal of the body")
-		c13DecodeArgs(r, um, "post")
+				return true, ""
+			}})
 	}
+	// the body is parsed exactly when the status is 200
+	r.MustGuard(fn, "post:parse-only-200", "ord(200, ctxhttp.Do(*)#0.StatusCode)", "<,>", asInstrs(steps), "decoding of the body")
+	c13DecodeFills(r, fn, steps, "post", 4)
 }
 
 // c13TransportArgs: the request goes out with the caller's context through the client's
@@ -1077,79 +1209,6 @@ func c13TransportArgs(r *Run, fn *ssa.Function, pfx string) {
 	if c := r.OneCall(fn, pfx+":request", "http.NewRequest"); c != nil {
 		r.ExpectArg(c, pfx+":request.method", 0, `"POST"`)
 	}
-}
-
-// c13DecodeArgs: what is decoded is the body read from the response, and it is decoded into the
-// caller's rsp (parameter 4): json.Unmarshal is handed rsp itself, the address of the parameter, or
-// the address of a local interface variable that holds nothing but rsp (a copy of the parameter —
-// Unmarshal decodes into the pointer held by the interface either way).
-func c13DecodeArgs(r *Run, um ssa.CallInstruction, pfx string) {
-	r.ExpectArg(um, pfx+":unmarshal.body", 0, "*io.ReadAll(*)#0*")
-	ok, got := c13ParamOrCopy(r, um, 1, "p4")
-	r.Check(pfx+":unmarshal.target", ok, r.Where(um), fmt.Sprintf("arg 1 of %s = %s (expected &(p4), p4 or the address of a local copy of p4)", CalleeOf(um), got))
-}
-
-// c13ParamOrCopy: argument i of the call is the parameter (p4), its address (&(p4)), or the address
-// of a local variable that holds nothing but the parameter and is used by this call alone: the
-// only stores into it store the parameter and execute before the call, it is read but never written
-// through elsewhere, and its address goes nowhere but into the call.
-func c13ParamOrCopy(r *Run, call ssa.CallInstruction, i int, param string) (bool, string) {
-	target := CallArgs(call)[i]
-	got := r.D.D(target)
-	if got == param || got == "&("+param+")" {
-		return true, got
-	}
-	tv := target
-	if mi, isMI := tv.(*ssa.MakeInterface); isMI {
-		tv = mi.X
-	}
-	a, isAlloc := tv.(*ssa.Alloc)
-	if !isAlloc || a.Referrers() == nil {
-		return false, got
-	}
-	sts := WholeStores(a)
-	ok := len(sts) > 0
-	for _, st := range sts {
-		// each store puts the parameter in, and the local is filled before the call runs
-		before := st.Block().Dominates(call.Block())
-		if st.Block() == call.Block() {
-			before = instrIndexOf(st) < instrIndexOf(call)
-		}
-		ok = ok && r.D.D(st.Val) == param && before
-	}
-	onlyThisCall := func(v ssa.Value) bool {
-		if v.Referrers() == nil {
-			return true
-		}
-		for _, ref := range *v.Referrers() {
-			if _, dbg := ref.(*ssa.DebugRef); dbg {
-				continue
-			}
-			if ci, isCall := ref.(ssa.CallInstruction); !isCall || ci != call {
-				return false
-			}
-		}
-		return true
-	}
-	for _, ref := range *a.Referrers() {
-		switch u := ref.(type) {
-		case *ssa.DebugRef:
-		case *ssa.UnOp:
-			ok = ok && u.Op == token.MUL // a read of the copy
-		case *ssa.Store:
-			ok = ok && u.Addr == ssa.Value(a) && u.Val != ssa.Value(a)
-		case ssa.CallInstruction:
-			ok = ok && u == call
-		case *ssa.MakeInterface:
-			ok = ok && onlyThisCall(u) // boxed as the interface{} argument of the call
-		default:
-			ok = false
-		}
-	}
-	if ok {
-		got += " (a local that holds " + param + " only)"
-	}
-	return ok, got
 }
 
 // ---- R7: the log client goes through the retry loop -----------------------------------
